@@ -1,6 +1,6 @@
 ENGINES = [
-    {'name': 'simw', 'path': 'engine/simw', 'serves_properties': ['C01','C02','C11'], 'kind_free_text': 'width-scaled recompilation of the real source (model immintrin.h + asm translated from its text), exhaustive over all operand values at w=2,4,8'},
-    {'name': 'lift64', 'path': 'harness', 'serves_properties': ['C01','C02','C11'], 'kind_free_text': 'exhaustive tuples over 64-bit boundary alphabets on the compiled library, closure over library-produced non-canonical values'},
+    {'name': 'simw', 'path': 'engine/simw', 'serves_properties': ['C01','C02','C11','C13','C14'], 'kind_free_text': 'width-scaled recompilation of the real source (model immintrin.h + asm translated from its text), exhaustive over all operand values at w=2,4,8'},
+    {'name': 'lift64', 'path': 'harness', 'serves_properties': ['C01','C02','C11','C13','C14'], 'kind_free_text': 'exhaustive tuples over 64-bit boundary alphabets on the compiled library, closure over library-produced non-canonical values'},
 ]
 NOTES = 'All checks: bin/check <ID> --tier quick|thorough; rebuilds harnesses from /repo/src on every run; KNOWN_FINDINGS.txt lists recorded defects.'
 NOT_APPLICABLE = {}
@@ -17,4 +17,12 @@ for _id,_fam,_n in (('C02','AVX2','4'),('C11','AVX-512','8')):
         'technique': 'exhaustive enumeration of all admitted operand pairs per kernel on the width-scaled real header (w=2,4; 8 thorough), all alphabet pairs on the compiled kernels, model-vs-hardware conformance and path-signature lifting',
         'text': 'Each '+_fam+' lane kernel is executed from the repository header, recompiled at half-word width w against a software intrinsics model, on every operand pair its documented assumption admits, in every lane position; the compiled kernels run on all ordered pairs of a 64-bit boundary alphabet; the w=32 model is compared bit-for-bit with the hardware on those pairs and every path signature seen at small width is matched by a 64-bit execution on the compiled kernel. Lanes are independent so per-lane pair enumeration covers the register-content quantifier.',
         'note': 'Trusted: the software model of the intrinsics (bound to hardware by the conformance step), operand assumptions as read from header comments, __int128 oracle. Not covered: defects present only at w=32 off the alphabet and off every lifted path class.',
+    }
+
+for _id,_fam in (('C13','AVX2'),('C14','AVX-512 (two interleaved states)')):
+    CHECKS[_id] = {
+        'engine': 'simw+lift64',
+        'technique': 'exhaustive enumeration of lane operand tuples and representation tuples through the width-scaled real kernels (w=2,4; 8 thorough) and alphabet/generator tuples on the compiled kernels',
+        'text': 'The '+_fam+' dot/sparse/dense kernels are run from the repository source at half-word width w on every 6-tuple of lane operands (w=2), every triple of addend representations through the adder chain (all 256^3 at w=4), every 4-tuple of row-result representations through the column sums, every admitted coefficient triple of the 8-bit variants and every unit coefficient array against tagged states (routing); the compiled kernels run on alphabet tuples with <=2 deviations and on lane products that land in [p,2^64) in all addends. Oracle: integer matrix-vector product mod p.',
+        'note': 'Trusted: intrinsics model (bound by C02/C11 conformance), __int128 oracle, scaled form of the 8-bit precondition. Composition bugs need two or more non-canonical values in one lane (probability ~2^-64 at full width); the scaled enumeration covers every such combination, the native run covers them through exact-product generators.',
     }
